@@ -133,7 +133,7 @@ func init() {
 		Level: "exploration",
 		Rule: "operator sequences over all 18 binary infix operators (= := += -= and or == != < <= > >= + - * / mod **) with operands rotating through identifiers, integer / negative / float / exponent literals, dotted paths, embedded calls, index a[i], a[i+1], slices a[i:j], nested blocks, not-prefixed operands and traced operands: all sequences of length 1 and 2 (quick) / 1..3 (thorough) in three spacings (blanks everywhere / none where legal / mixed), plus random sequences of 3..9 operators. " +
 			"(a) the tree returned by (infixExpand {…}) must print exactly as the independent precedence-climbing parse of the same token list under the documented binding powers; (b) evaluating the block and evaluating the expanded prefix form in twin interpreters must give the same value/error-ness and the same effect trace. " +
-			"(c) semantic programs with Go-computed expectations: random arithmetic/comparison/logic expressions evaluated by an independent Go evaluator of the table, statement lists separated by ; and newlines (value = last statement, order by trace), if/else chains, every go-for header shape (three-clause, condition-only, forever+break, range over int/array/hash with one and two variables, labelled break/continue), compound assignment, ++/--, index/slice/dot reads and writes. non-trivial = distinct case with >=2 operators of different binding power or a control construct",
+			"(c) semantic programs with Go-computed expectations: random arithmetic/comparison/logic expressions evaluated by an independent Go evaluator of the table, statement lists separated by ; and newlines (value = last statement, order by trace), if/else chains, every go-for header shape (three-clause with each subset of its clauses empty, condition-only, forever+break, range over int/array/hash with one and two variables, labelled break/continue), compound assignment, ++/--, index/slice/dot reads and writes. non-trivial = distinct case with >=2 operators of different binding power or a control construct",
 		Assumptions: []string{
 			"tokenisation contract: a sign directly before a digit starts a literal exactly when the previous rune is start of text, blank, an opening bracket, one of , ; : or an operator rune; the inherently ambiguous spellings (a -1, a--1, and a<-1 which spells the channel operator <-) are never generated",
 			"the printed form of operands inside the expanded tree (arrayidx, infix […], exponent normalisation) is taken from the unchanged tree's printer",
@@ -531,7 +531,20 @@ func c06Sem(c *core.Ctx, i int, k int) *core.Result {
 		res.Ev("statement_lists", 1)
 	case 5: // three-clause for, compound assignment, ++
 		n, m := int64(r.N(6)), int64(r.N(5)+1)
-		text = fmt.Sprintf("{s := 0; for i := 0; i < %d; i++ { s += i * %d }; s}\n", n, m)
+		switch r.N(6) { // the full header and every header with empty clauses
+		case 0:
+			text = fmt.Sprintf("{s := 0; i := 0; for ; i < %d; i++ { s += i * %d }; s}\n", n, m)
+		case 1:
+			text = fmt.Sprintf("{s := 0; for i := 0; ; i++ { if i >= %d { break }; s += i * %d }; s}\n", n, m)
+		case 2:
+			text = fmt.Sprintf("{s := 0; for i := 0; i < %d; { s += i * %d; i++ }; s}\n", n, m)
+		case 3:
+			text = fmt.Sprintf("{s := 0; i := 0; for ; ; { if i >= %d { break }; s += i * %d; i++ }; s}\n", n, m)
+		case 4:
+			text = fmt.Sprintf("{s := 0; i := 0; for ; i < %d; { s += i * %d; i++ }; s}\n", n, m)
+		default:
+			text = fmt.Sprintf("{s := 0; for i := 0; i < %d; i++ { s += i * %d }; s}\n", n, m)
+		}
 		want = strconv.FormatInt(m*n*(n-1)/2, 10)
 		res.Ev("for_headers", 1)
 	case 6: // range over int / array (one and two variables) / hash; condition-only; forever
